@@ -797,3 +797,69 @@ def contract_resume():
         ensures=[("utt2idx_is_the_position_in_the_full_map", "UTT2IDX_OK()"),
                  ("removed_are_exactly_the_manifest_lines", "REMOVED_OK()")],
     )
+
+
+# ---------------------------------------------------------------------------------------------- S8 configuration arguments
+# _config_type (the argparse `type=` of every configuration option of both tools): the value handed to the tools is
+# _load_config(TEXT) where TEXT is the content of the file the argument names if it can be opened, and the argument itself otherwise -
+# one parse, of exactly that text, so a configuration given inline, as a JSON file or as a YAML file reaches the tools as the same object
+# whenever the parser reads the three texts as the same tree (A-JSON); ValueError iff the parser rejects the text.
+class _CfgFile:
+    def sym_getattr(self, attr, ev, node):
+        if attr == "read":
+            def read(ev2, a, kw, n2):
+                if a or kw:
+                    raise Outside("read form")
+                ev2.st.ghost["reads"] = ev2.st.ghost["reads"] + 1
+                return Opaque("FILE_TEXT", "str")
+            return symex.PyCallable(read)
+        raise Outside(f"file attribute .{attr}")
+
+
+def setup_config_type(is_file, parses):
+    def setup(ex, st):
+        st.env["string"] = Opaque("ARGUMENT", "str")
+        st.ghost.update(opens=[], reads=0, parsed=[])
+        ex.ctx = dict(is_file=is_file, parses=parses)
+    return setup
+
+
+def h_cfg_open(ex, st, args, kwargs, node, ev):
+    st.ghost["opens"] = st.ghost["opens"] + [tuple(a.term if isinstance(a, Opaque) else a for a in args) + tuple(sorted(kwargs))]
+    if not ex.ctx["is_file"]:
+        ex.sym_raise("IOError")
+    return _CfgFile()
+
+
+def h_cfg_load(ex, st, args, kwargs, node, ev):
+    t = args[0].term if len(args) == 1 and isinstance(args[0], Opaque) and not kwargs else None
+    st.ghost["parsed"] = st.ghost["parsed"] + [t]
+    if not ex.ctx["parses"]:
+        ex.sym_raise("Exception")
+    return Opaque(("config_tree_of", t), "tree")
+
+
+def contract_config_type():
+    def ok(ev, res):
+        st, c = ev.st, ev.ex.ctx
+        want = "FILE_TEXT" if c["is_file"] else "ARGUMENT"
+        return (isinstance(res, Opaque) and res.term == ("config_tree_of", want) and st.ghost["parsed"] == [want]
+                and st.ghost["opens"] == [("ARGUMENT",)] and st.ghost["reads"] == (1 if c["is_file"] else 0))
+
+    return Contract(
+        target="command_line:_config_type", uses=["A-PYSEM", "A-JSON"],
+        consts={"OK": SpecFn(ok), "REJECTED": SpecFn(lambda ev: not ev.ex.ctx["parses"]), "_HAVE_YAML": api.sym("have_yaml", "bool")},
+        handlers={"open": h_cfg_open, "_load_config": h_cfg_load, "opaque.endswith": lambda ex, st, o, args, kwargs, node, ev: symex.fresh("endswith", "bool")},
+        raises={"ValueError": "REJECTED()"},
+        ensures=[("one_parse_of_the_files_text_or_of_the_argument_itself", "OK(result)")],
+    )
+
+
+def unit_config_type(prop="C09"):
+    def unit(tier, known):
+        from contracts.registry import run_contract
+        setups = [(f"{'file' if f else 'inline'}_{'ok' if p else 'rejected'}", setup_config_type(f, p)) for f in (True, False) for p in (True, False)]
+        return run_contract(prop, ("command_line", "_config_type"), contract_config_type(), setups, name="config_type", fname="_config_type",
+                            to_case=_to_case_plan("rtc." + prop.lower()), replay_module="rtc." + prop.lower())
+    unit.__name__ = "config_type"
+    return unit
